@@ -247,11 +247,19 @@ record address is that address. -/
 def getRecordsByAddress (st : State κ) (addr : Addr) : List Record :=
   ((st.idx.filter fun e => e.1.1 = addr).map (·.2)).filter fun r => r.addr = addr
 
-/-- the `ReverseLookup` query (keeper/query_server.go:40): the request's address string is parsed
-for the index prefix, but the index entries are then filtered by comparing the record's address
-with the request string AS WRITTEN (query_server.go:59) — for a non-canonical spelling of an
-address nothing passes the filter. -/
+/-- the `ReverseLookup` query (keeper/query_server.go:40), after the repair of the filter (see
+known findings): the request's address string is parsed for the index prefix and the index
+entries are filtered by comparing the record's address with the CANONICAL string of the parsed
+address. -/
 def reverseLookup (st : State κ) (addr : Addr) : Except Err (List Bytes) :=
+  if !cfg.addrOk addr then .error .invalidAddress
+  else .ok ((((st.idx.filter fun e => e.1.1 = cfg.canon addr).map (·.2)).filter
+    fun r => r.addr = cfg.canon addr).map (·.name))
+
+/-- the query before the repair: the entries were filtered by comparing the record's address with
+the request string AS WRITTEN (query_server.go:59) — for a non-canonical spelling of an address
+nothing passed the filter. -/
+def reverseLookupPreFix (st : State κ) (addr : Addr) : Except Err (List Bytes) :=
   if !cfg.addrOk addr then .error .invalidAddress
   else .ok ((((st.idx.filter fun e => e.1.1 = cfg.canon addr).map (·.2)).filter
     fun r => r.addr = addr).map (·.name))
